@@ -133,6 +133,29 @@ func (r *verifRig41) open(owner, file string, mask virtual.ShareMask) nfsv4.Open
 	return &nfsv4.Open4res_default{Status: res.Status}
 }
 
+// openClaim: OPEN by file handle: kind 1 = CLAIM_FH, 2 = CLAIM_PREVIOUS without
+// delegation, 3 = CLAIM_PREVIOUS asking for a read delegation.
+func (r *verifRig41) openClaim(owner, file string, mask virtual.ShareMask, kind int) nfsv4.Open4res {
+	var claim nfsv4.OpenClaim4 = &nfsv4.OpenClaim4_CLAIM_FH{}
+	switch kind {
+	case 2:
+		claim = &nfsv4.OpenClaim4_CLAIM_PREVIOUS{DelegateType: nfsv4.OPEN_DELEGATE_NONE}
+	case 3:
+		claim = &nfsv4.OpenClaim4_CLAIM_PREVIOUS{DelegateType: nfsv4.OPEN_DELEGATE_READ}
+	}
+	res := r.sequence(verifPutFH(r.dir.leaves[file].handle()), &nfsv4.NfsArgop4_OP_OPEN{Opopen: nfsv4.Open4args{
+		ShareAccess: verifShare(mask),
+		ShareDeny:   nfsv4.OPEN4_SHARE_DENY_NONE,
+		Owner:       nfsv4.OpenOwner4{Clientid: r.client, Owner: []byte(owner)},
+		Openhow:     &nfsv4.Openflag4_default{Opentype: nfsv4.OPEN4_NOCREATE},
+		Claim:       claim,
+	}})
+	if o, ok := res.Resarray[len(res.Resarray)-1].(*nfsv4.NfsResop4_OP_OPEN); ok {
+		return o.Opopen
+	}
+	return &nfsv4.Open4res_default{Status: res.Status}
+}
+
 func (r *verifRig41) tables() (clients, incarnations, sessions, oofs, lofs, lockOwners, opened int) {
 	p := r.program
 	for _, cis := range p.clientIncarnationsByClientID {
